@@ -206,3 +206,18 @@ Proof.
   split; [left; reflexivity|]. split; [vm_compute; reflexivity|].
   vm_compute. tauto.
 Qed.
+
+(** [inner_scope_ok] decides exactly the statement refuted in general by [inner_scope_refuted]. *)
+Lemma inner_scope_ok_spec it v :
+  inner_scope_ok it v = true <->
+  (forall P f, In P (type_params (gi_params it)) -> In f (gv_fields v) -> uses P (gf_ty f) = true ->
+               In P (type_params (gi_params (inner_struct it v)))).
+Proof.
+  unfold inner_scope_ok. rewrite forallb_forall. split.
+  - intros H P f HP Hf Hu. specialize (H P HP). rewrite forallb_forall in H. specialize (H f Hf).
+    rewrite Hu in H. cbn [negb orb] in H. apply existsb_exists in H. destruct H as (Q & HQ & E).
+    apply String.eqb_eq in E. now subst Q.
+  - intros H P HP. rewrite forallb_forall. intros f Hf.
+    destruct (uses P (gf_ty f)) eqn:Hu; [|reflexivity]. cbn [negb orb].
+    apply existsb_exists. exists P. split; [eauto|apply String.eqb_refl].
+Qed.
